@@ -865,6 +865,9 @@ void DGXMLScanner::scanDocTypeDecl()
     );
     dtdScanner.setScannerInfo(this, &fReaderMgr, &fBufMgr);
 
+    // Readers pushed for parameter entities must not outlive the DTDScanner
+    ReaderStackJanitor janReaderStack(&fReaderMgr);
+
     //  If the next character is '[' then we have no external subset cause
     //  there is no system id, just the opening character of the internal
     //  subset. Else, has to be an id.
@@ -2165,6 +2168,9 @@ Grammar* DGXMLScanner::loadDTDGrammar(const InputSource& src,
         , fMemoryManager
     );
     dtdScanner.setScannerInfo(this, &fReaderMgr, &fBufMgr);
+
+    // Readers pushed for parameter entities must not outlive the DTDScanner
+    ReaderStackJanitor janReaderStack(&fReaderMgr);
 
     // Tell it its not in an include section
     dtdScanner.scanExtSubsetDecl(false, true);
